@@ -290,7 +290,19 @@ pub fn case(seed: u64, st: &mut Stats) {
     if rng.chance(1, 3) {
         spec.set(Setting::DisableHelpFlag);
         spec.set(Setting::DisableVersionFlag);
-        spec.args.truncate(rng.range(1, 2));
+        spec.args.truncate(rng.range(0, 2));
+        // down to the degenerate page: a single subcommand (no generated `help` next to it), or
+        // nothing visible at all
+        if rng.coin() {
+            spec.set(Setting::DisableHelpSubcommand);
+            spec.subs.truncate(rng.range(0, 2));
+            if rng.coin() {
+                for a in spec.args.iter_mut() {
+                    a.hide = true;
+                }
+            }
+            st.count("stratum.sparse-sections.no-help-subcommand");
+        }
         st.count("stratum.sparse-sections");
     }
     if rng.chance(1, 8) {
